@@ -35,6 +35,10 @@ def main(tier):
 
         def build(rec, vals, kind):
             a = Array(cont(vals, kind), rec["a"][1], rec["a"][0])
+            if rec["op"] == "Raw":
+                import collections
+                from barril.units import Quantity
+                return Array(Quantity.CreateDerived(collections.OrderedDict([(rec["a"][0], [rec["a"][1], 1]), (rec["b"][0], [rec["b"][1], 1])])), cont(vals, kind))
             if rec["op"]:
                 b = Array(cont([1.0] * len(vals), kind), rec["b"][1], rec["b"][0])
                 a = a * b if rec["op"] == "Mul" else a / b
@@ -186,6 +190,33 @@ def main(tier):
                     got *= 2.0
             if [float(x) for x in arr.GetAbstractValue()] != vals:
                 rep.violation({"check": "Array conversion changed the Array's own values", "category": c, "unit": u, "container": kind}, {"values": vals, "now": list(arr.GetAbstractValue())})
+        rep.count(evaluations=m, nontrivial=m, traces=m)
+        # a unit an application registers with the documented formula strings (the table's own units use closures): conversions and
+        # arithmetic of Arrays in every container kind against the Scalars
+        m = 0
+        if P.outcome(lambda: db.AddUnit("length", "verif furlong", "verif_fur", "%f / 201.168", "%f * 201.168"))[0] == "ok":
+            import operator
+            for kind in KINDS:
+                for vals in ([], [1.0], [0.5, 2.0, -3.0]):
+                    arr = Array("length", cont(vals, kind), "verif_fur")
+                    other = Array("length", cont([10.0 * (i + 1) for i in range(len(vals))], kind), "m")
+                    calls = [("GetValues(m)", lambda: list(arr.GetValues("m")), lambda i: Scalar("length", vals[i], "verif_fur").GetValue("m")),
+                             ("CreateCopy(unit=km)", lambda: list(arr.CreateCopy(unit="km").GetAbstractValue()), lambda i: Scalar("length", vals[i], "verif_fur").GetValue("km")),
+                             ("m Array converted to the registered unit", lambda: list(other.GetValues("verif_fur")), lambda i: Scalar("length", 10.0 * (i + 1), "m").GetValue("verif_fur"))]
+                    for opn, opf in (("+", operator.add), ("-", operator.sub), ("*", operator.mul), ("/", operator.truediv)):
+                        calls.append(("m %s registered unit" % opn, lambda opf=opf: list(opf(other, arr).GetAbstractValue()),
+                                      lambda i, opf=opf: opf(Scalar("length", 10.0 * (i + 1), "m"), Scalar("length", vals[i], "verif_fur")).GetValue()))
+                        calls.append(("registered unit %s m" % opn, lambda opf=opf: list(opf(arr, other).GetAbstractValue()),
+                                      lambda i, opf=opf: opf(Scalar("length", vals[i], "verif_fur"), Scalar("length", 10.0 * (i + 1), "m")).GetValue()))
+                    for name, fa, fs in calls:
+                        o = P.outcome(fa)
+                        m += 1
+                        want = [fs(i) for i in range(len(vals))]
+                        if o[0] != "ok" or len(o[1]) != len(want) or any(abs(float(a) - b) > 1e-12 * max(abs(b), 1e-300) for a, b in zip(o[1], want)):
+                            rep.violation({"check": "Array in a unit registered with formula strings", "call": name, "container": kind, "length": len(vals)},
+                                          {"array": o[2] if o[0] != "ok" else [float(x) for x in o[1]], "scalars": want})
+        else:
+            raise common.MachineryError("could not register the formula-string unit")
         rep.count(evaluations=m, nontrivial=m, traces=m)
     finally:
         UnitDatabase.PopSingleton()
